@@ -32,7 +32,7 @@ pub open spec fn swap_guarded(w: World, pair: Seq<char>, i0: AssetInfo, i1: Asse
 //%%rewrite #? /to\.unwrap_or_else\(\|\| sender\.clone\(\)\)/ => vunwrap_or_else(to, || -> (x: Addr) ensures x == sender { sender.clone() }) ## R4: Option::unwrap_or_else -> verified helper; closure annotated with its own (verified) ensures
 //%%sig
     ensures
-        /*[C02,C01,C03,C07,C12 swap.settles]*/ r is Ok ==> old(deps.storage).pair_info is Some && old(deps.storage).commission is Some && ({
+        /*[C02,C01,C03,C07,C12,C06,C13 swap.settles]*/ r is Ok ==> old(deps.storage).pair_info is Some && old(deps.storage).commission is Some && ({
             let pi = old(deps.storage).pair_info->Some_0;
             exists|i0: AssetInfo, i1: AssetInfo| #![trigger raw_of(i0, pi.asset_infos[0]), raw_of(i1, pi.asset_infos[1])] raw_of(i0, pi.asset_infos[0]) && raw_of(i1, pi.asset_infos[1])
                 && swap_settles(deps.querier.world(), env.contract.address.0@, i0, i1, old(deps.storage).commission->Some_0.0.v(), offer_asset,
@@ -48,7 +48,7 @@ pub open spec fn swap_guarded(w: World, pair: Seq<char>, i0: AssetInfo, i1: Asse
         // witnesses for the existential: the two pool descriptors returned by query_pools
         assert(raw_of(pools[0].info, pair_info.asset_infos[0]) && raw_of(pools[1].info, pair_info.asset_infos[1]));
         // (a failed assert is assumed by what follows it: the settlement witness comes first, a guard failure after it is reported on its own)
-        /*[C02,C01,C07,C12 swap.witness]*/ assert(swap_settles(deps.querier.world(), env.contract.address.0@, pools[0].info, pools[1].info, commission_rate.0.v(), offer_asset,
+        /*[C02,C01,C07,C12,C06,C13 swap.witness]*/ assert(swap_settles(deps.querier.world(), env.contract.address.0@, pools[0].info, pools[1].info, commission_rate.0.v(), offer_asset,
             (if to is Some { to->Some_0.0@ } else { sender.0@ }), messages@));
         /*[C10 swap.guard-witness]*/ assert(swap_guarded(deps.querier.world(), env.contract.address.0@, pools[0].info, pools[1].info, pair_info.asset_decimals, commission_rate.0.v(), offer_asset, belief_price, max_spread));
     }
@@ -200,7 +200,7 @@ pub open spec fn tok_is(i: AssetInfo, who: Seq<char>) -> bool { i matches AssetI
                 && (tok_is(i0, info.sender.0@) || tok_is(i1, info.sender.0@)),
         /*[C02,C01,C03 hook.swap.named-asset-is-sender]*/ decode::<Cw20HookMsg>(cw20_msg.msg) matches Ok(Cw20HookMsg::Swap { offer_asset, belief_price, max_spread, to }) ==> r is Ok ==>
             (offer_asset.info matches AssetInfo::Token { contract_addr } && contract_addr@ == info.sender.0@),
-        /*[C02,C01,C03,C07,C12 hook.swap.settles]*/ decode::<Cw20HookMsg>(cw20_msg.msg) matches Ok(Cw20HookMsg::Swap { offer_asset, belief_price, max_spread, to }) ==> r is Ok ==>
+        /*[C02,C01,C03,C07,C12,C06,C13 hook.swap.settles]*/ decode::<Cw20HookMsg>(cw20_msg.msg) matches Ok(Cw20HookMsg::Swap { offer_asset, belief_price, max_spread, to }) ==> r is Ok ==>
             old(deps.storage).pair_info is Some && old(deps.storage).commission is Some && ({
                 let pi = old(deps.storage).pair_info->Some_0;
                 exists|i0: AssetInfo, i1: AssetInfo| #![trigger raw_of(i0, pi.asset_infos[0]), raw_of(i1, pi.asset_infos[1])] raw_of(i0, pi.asset_infos[0]) && raw_of(i1, pi.asset_infos[1])
@@ -245,7 +245,7 @@ pub open spec fn tok_is(i: AssetInfo, who: Seq<char>) -> bool { i matches AssetI
         /*[C02,C01,C03,C14 exec.swap.native-only]*/ msg matches ExecuteMsg::Swap { offer_asset, belief_price, max_spread, to } ==> r is Ok ==> offer_asset.info is NativeToken,
         /*[C02,C09,C01,C03,C12 exec.swap.native-funds]*/ msg matches ExecuteMsg::Swap { offer_asset, belief_price, max_spread, to } ==> r is Ok ==>
             (offer_asset.info matches AssetInfo::NativeToken { denom } ==> offer_asset.amount.0 as nat == attached(info.funds@, denom@)),
-        /*[C02,C01,C03,C07,C12 exec.swap.settles]*/ msg matches ExecuteMsg::Swap { offer_asset, belief_price, max_spread, to } ==> r is Ok ==>
+        /*[C02,C01,C03,C07,C12,C06,C13 exec.swap.settles]*/ msg matches ExecuteMsg::Swap { offer_asset, belief_price, max_spread, to } ==> r is Ok ==>
             old(deps.storage).pair_info is Some && old(deps.storage).commission is Some && ({
                 let pi = old(deps.storage).pair_info->Some_0;
                 exists|i0: AssetInfo, i1: AssetInfo| #![trigger raw_of(i0, pi.asset_infos[0]), raw_of(i1, pi.asset_infos[1])] raw_of(i0, pi.asset_infos[0]) && raw_of(i1, pi.asset_infos[1])
@@ -276,7 +276,7 @@ pub open spec fn tok_is(i: AssetInfo, who: Seq<char>) -> bool { i matches AssetI
                     && withdraw_pays(deps.querier.world(), env.contract.address.0@, pi, i0, i1, lp, m.sender@, m.amount, r->Ok_0.msgs()) }),
         /*[C02,C01,C03,C14,C12 exec.hook.swap.amount-and-asset]*/ msg matches ExecuteMsg::Receive(m) ==> (decode::<Cw20HookMsg>(m.msg) matches Ok(Cw20HookMsg::Swap { offer_asset, belief_price, max_spread, to }) ==> r is Ok ==>
             offer_asset.amount == m.amount && (offer_asset.info matches AssetInfo::Token { contract_addr } && contract_addr@ == info.sender.0@)),
-        /*[C02,C01,C03,C07,C12 exec.hook.swap.settles]*/ msg matches ExecuteMsg::Receive(m) ==> (decode::<Cw20HookMsg>(m.msg) matches Ok(Cw20HookMsg::Swap { offer_asset, belief_price, max_spread, to }) ==> r is Ok ==>
+        /*[C02,C01,C03,C07,C12,C06,C13 exec.hook.swap.settles]*/ msg matches ExecuteMsg::Receive(m) ==> (decode::<Cw20HookMsg>(m.msg) matches Ok(Cw20HookMsg::Swap { offer_asset, belief_price, max_spread, to }) ==> r is Ok ==>
             old(deps.storage).pair_info is Some && old(deps.storage).commission is Some && ({
                 let pi = old(deps.storage).pair_info->Some_0;
                 exists|i0: AssetInfo, i1: AssetInfo| #![trigger raw_of(i0, pi.asset_infos[0]), raw_of(i1, pi.asset_infos[1])] raw_of(i0, pi.asset_infos[0]) && raw_of(i1, pi.asset_infos[1])
@@ -309,7 +309,7 @@ pub open spec fn raw_is_native(a: AssetInfoRaw, denom: Seq<char>) -> bool { a ma
             && n.requirements == o.requirements && n.commission_rate == o.commission_rate
             && ((raw_is_native(o.asset_infos[0], denom@) || raw_is_native(o.asset_infos[1], denom@)) ==> n.asset_decimals == asset_decimals)
             && (!(raw_is_native(o.asset_infos[0], denom@) || raw_is_native(o.asset_infos[1], denom@)) ==> n.asset_decimals == o.asset_decimals) }),
-        /*[C17,C14 upd.frame]*/ final(deps.storage).config == old(deps.storage).config && final(deps.storage).commission == old(deps.storage).commission,
+        /*[C17,C14,C06 upd.frame]*/ final(deps.storage).config == old(deps.storage).config && final(deps.storage).commission == old(deps.storage).commission,
 //%%loop 1
         invariant 0 <= it.index@ <= 2,
             pair_info_raw.asset_decimals == (if (it.index@ > 0 && raw_is_native(asset_infos[0], denom@)) || (it.index@ > 1 && raw_is_native(asset_infos[1], denom@)) { asset_decimals } else { old(deps.storage).pair_info->Some_0.asset_decimals }),
@@ -338,12 +338,12 @@ pub open spec fn rev_ok(w: World, pair: Seq<char>, i0: AssetInfo, i1: AssetInfo,
 // two results pinned to it coincide
 pub proof fn lemma_c12_forward(x: nat, y: nat, a: nat, cr: nat, n1: nat, sp1: nat, c1: nat, n2: nat, sp2: nat, c2: nat)
     requires swap_pinned(x, y, a, cr, n1, sp1, c1), swap_pinned(x, y, a, cr, n2, sp2, c2)
-    ensures /*[C12 quote.forward-unique]*/ n1 == n2 && sp1 == sp2 && c1 == c2
+    ensures /*[C12,C13 quote.forward-unique]*/ n1 == n2 && sp1 == sp2 && c1 == c2
 {}
 //%fn contracts/halo-pair/src/contract.rs | - | query_simulation
 //%%sig
     ensures
-        /*[C12 quote.forward]*/ r is Ok ==> deps.storage.pair_info is Some && deps.storage.commission is Some && ({
+        /*[C12,C13 quote.forward]*/ r is Ok ==> deps.storage.pair_info is Some && deps.storage.commission is Some && ({
             let pi = deps.storage.pair_info->Some_0;
             exists|i0: AssetInfo, i1: AssetInfo| #![trigger raw_of(i0, pi.asset_infos[0]), raw_of(i1, pi.asset_infos[1])] raw_of(i0, pi.asset_infos[0]) && raw_of(i1, pi.asset_infos[1])
                 && sim_ok(deps.querier.world(), human_of(pi.contract_addr.0@), i0, i1, deps.storage.commission->Some_0.0.v(), offer_asset,
@@ -351,7 +351,7 @@ pub proof fn lemma_c12_forward(x: nat, y: nat, a: nat, cr: nat, n1: nat, sp1: na
 //%%insert before #1 /^    Ok\(SimulationResponse \{/
     proof {
         assert(raw_of(pools[0].info, pair_info.asset_infos[0]) && raw_of(pools[1].info, pair_info.asset_infos[1]));
-        /*[C12 quote.forward.witness]*/ assert(sim_ok(deps.querier.world(), human_of(pair_info.contract_addr.0@), pools[0].info, pools[1].info, commission_rate.0.v(), offer_asset, return_amount, spread_amount, commission_amount));
+        /*[C12,C13 quote.forward.witness]*/ assert(sim_ok(deps.querier.world(), human_of(pair_info.contract_addr.0@), pools[0].info, pools[1].info, commission_rate.0.v(), offer_asset, return_amount, spread_amount, commission_amount));
     }
 //%end
 //%fn contracts/halo-pair/src/contract.rs | - | query_reverse_simulation
@@ -378,7 +378,7 @@ use tokenmsg::InstantiateMsg as TokenInstantiateMsg;
 //%%sig
     ensures
         /*[C14,C17 init.factory-is-creator]*/ r is Ok ==> final(deps.storage).config is Some && final(deps.storage).config->Some_0.halo_factory.0@ == info.sender.0@,
-        /*[C16,C17,C05,C10 init.stores-what-it-was-told]*/ r is Ok ==> final(deps.storage).pair_info is Some && ({ let p = final(deps.storage).pair_info->Some_0;
+        /*[C16,C17,C05,C10,C06 init.stores-what-it-was-told]*/ r is Ok ==> final(deps.storage).pair_info is Some && ({ let p = final(deps.storage).pair_info->Some_0;
             raw_of(msg.asset_infos[0], p.asset_infos[0]) && raw_of(msg.asset_infos[1], p.asset_infos[1]) && p.asset_decimals == msg.asset_decimals
             && p.requirements == msg.requirements && p.commission_rate == msg.commission_rate && p.contract_addr.0@ == canon_of(env.contract.address.0@) })
             && final(deps.storage).commission == Some(msg.commission_rate),
